@@ -203,6 +203,62 @@ def check_system(case, ctx):
 
 
 # ---------------------------------------------------------------------------
+# sub-check 'reeval': the same Reaction / ReactionSystem objects queried repeatedly, with the concentrations and
+# then the rate constants changed in between (a rate must always reflect the *current* constant and variables)
+# ---------------------------------------------------------------------------
+
+def check_reeval(case, ctx):
+    _labels(case, ctx)
+    cls, conc, ks = _refs(case)
+    _, conc2, _ = _refs(case, "alt")
+    sysd = case["sys"]
+    subs = list(sysd["subs"])
+    rxn_objs = [G.build_reaction(r, i) for i, r in enumerate(sysd["rxns"])]
+    rsys = G.build_system(sysd, rxn_objs)
+    v1 = G.native_variables(case)
+    v2 = G.native_variables(case, "alt")
+
+    def judge(step, variables, conc_ref, ks_ref):
+        exp, scale = G.ref_system_rates(sysd, ks_ref, conc_ref)
+        got = rsys.rates(dict(variables))
+        if not cmp_dict(ctx, cls, got, exp, scale, "reeval:system:" + step, subs, missing_is_zero=True):
+            return False
+        for i, r in enumerate(sysd["rxns"]):
+            q = G.ref_rate(r, ks_ref[i], conc_ref)
+            own = G.rxn_keys(r)
+            e = {s_: G.net(r, s_) * q for s_ in own}
+            sc = None if cls == "sym" else {s_: abs(e[s_]) for s_ in own}
+            if not cmp_dict(ctx, cls, rxn_objs[i].rate(dict(variables)), e, sc, "reeval:reaction:" + step, own, index=i):
+                return False
+        return True
+
+    if not judge("first", v1, conc, ks):
+        return
+    if not judge("other_concentrations", v2, conc2, ks):
+        return
+    # new constants: assigned to .param for plain ones, through the variables for named ones
+    changed = False
+    ks3 = list(ks)
+    v3 = dict(v1)
+    for i, r in enumerate(sysd["rxns"]):
+        kt = r.get("ktype", "plain")
+        newk = G._other_k(r["k"], i + 1)
+        if kt == "plain":
+            rxn_objs[i].param = G.native(newk)
+        elif kt == "named":
+            v3[G.k_name(i)] = G.native(newk)
+        else:
+            continue
+        ks3[i] = G.refval(newk, cls)
+        changed = True
+    if changed:
+        ctx.label("constants_changed")
+        if not judge("after_new_constants", v3, conc, ks3):
+            return
+    judge("first_again", v3 if changed else v1, conc, ks3)
+
+
+# ---------------------------------------------------------------------------
 # sub-check 'cstr': feed terms F*(c_feed - c)
 # ---------------------------------------------------------------------------
 
@@ -336,6 +392,9 @@ SUBCHECKS = [
     SubCheck("system", check_system, strategy=G.rate_cases(), quick=900, thorough=60000,
              rule="ReactionSystem.rates(vars) with default and explicit substance keys; same after permuting the reaction list",
              tolerances={"float_rel_of_sum_abs_terms": 1e-12}),
+    SubCheck("reeval", check_reeval, strategy=G.rate_cases(), quick=500, thorough=30000,
+             rule="same objects queried with two concentration vectors, then with new rate constants (assigned to "
+                  ".param / passed as named variables), then again", tolerances={"float": "1e-12 * sum|terms|"}),
     SubCheck("cstr", check_cstr, strategy=G.rate_cases(cstr=True), quick=700, thorough=40000,
              rule="ReactionSystem.rates(vars, cstr_fr_fc=(F, {substance: feed key})) with feeds to all or to some substances",
              tolerances={"float_rel_of_sum_abs_terms": 1e-12}),
